@@ -32,6 +32,11 @@ Definition verdict_eqb (a b : verdict) : bool :=
   | _, _ => false
   end.
 
+(* one-directional comparison, used where the implementation can also fail for reasons the
+   guard model does not cover: what the model rejects (or overruns) the implementation does *)
+Definition verdict_implies (model observed : verdict) : bool :=
+  match model with VOk => true | _ => verdict_eqb model observed end.
+
 (* error classes (only "an exception is raised" is compared; the class documents which
    layer rejects) *)
 Definition E_VALUE : Z := 1.      (* ValueError / IndexError raised by the Python layer or _tskitmodule.c *)
@@ -188,11 +193,26 @@ Definition link_ancestors_init (strict_samples strict_ancestors : bool) (num_nod
 Definition simplifier_init_samples (num_nodes : Z) (samples : list Z) : res (list Z) :=
   mark_ids true num_nodes 0 1 (alloc num_nodes 0) samples.
 
+(* entry points with their preconditions that are not about identifiers:
+   tsk_table_collection_simplify (l.12078-12083) and tsk_table_collection_link_ancestors
+   (l.12130-12133) refuse edge metadata; ancestor_mapper_init (l.8035) refuses empty lists;
+   tsk_table_collection_subset refuses migrations (l.13022) after the node loop *)
+Definition simplify_entry (has_edge_metadata : bool) (num_nodes : Z) (samples : list Z) : res (list Z) :=
+  if has_edge_metadata then Err E_LIBRARY else simplifier_init_samples num_nodes samples.
+
+Definition link_ancestors_entry (strict_samples strict_ancestors has_edge_metadata : bool) (num_nodes : Z)
+           (samples ancestors : list Z) : res (list Z * list Z) :=
+  if has_edge_metadata then Err E_LIBRARY else
+  if (zlen samples =? 0) || (zlen ancestors =? 0) then Err E_LIBRARY else
+  link_ancestors_init strict_samples strict_ancestors num_nodes samples ancestors.
+
 (* the guards /repo contains now (Gen/Generated.v, re-read from tables.c on every run) *)
 Definition ibd_within_init_current := ibd_within_init C09_ibd_within_ge.
 Definition ibd_between_init_current := ibd_between_init C09_ibd_between_ge.
 Definition link_ancestors_init_current :=
   link_ancestors_init C09_ancestor_mapper_samples_ge C09_ancestor_mapper_ancestors_ge.
+Definition link_ancestors_entry_current :=
+  link_ancestors_entry C09_ancestor_mapper_samples_ge C09_ancestor_mapper_ancestors_ge.
 
 (* c/tskit/genotypes.c variant_init_samples_and_index_map (l.90-131): alt_sample_index_map =
    malloc(num_nodes) memset 0xff; flags[u] read after the bound check *)
@@ -344,6 +364,10 @@ Fixpoint subset_nodes (num_nodes : Z) (node_col node_map : list Z) (new_id : Z) 
 
 Definition table_collection_subset (num_nodes : Z) (node_col : list Z) (nodes : list Z) :=
   subset_nodes num_nodes node_col (alloc num_nodes TSK_NULL) 0 nodes.
+
+Definition subset_entry (has_migrations : bool) (num_nodes : Z) (node_col : list Z) (nodes : list Z) :=
+  do m <- table_collection_subset num_nodes node_col nodes;
+  if has_migrations then Err E_LIBRARY else Ok m.
 
 (* TableCollection_union (module l.7075-7080: mapping length must be other.num_nodes) and
    tsk_table_collection_union (l.13218-13227: -1 <= map[k] < self.num_nodes), then
